@@ -193,6 +193,7 @@ type gor struct {
 	prio  int
 	begun bool
 	seq   int // unbuffered send: index of this goroutine's deposit
+	daemon bool     // background helper (ticker): does not keep the run alive
 	ranAt int       // step at which it was last given the processor
 	deflt bool      // woken from a select whose default branch was taken
 	until int64     // gSleeping: virtual deadline (ns)
@@ -385,6 +386,21 @@ func Go(f func()) {
 		s.exit()
 	}()
 	s.call(req{kind: kSpawn, wake: start})
+}
+
+// goDaemon starts a background helper that does not keep the run alive (it is left parked when everything else has exited).
+func goDaemon(f func()) {
+	s := cur.Load()
+	start := make(chan reply)
+	go func() {
+		raceDisable()
+		<-start
+		raceEnable()
+		defer s.recoverExit()
+		f()
+		s.exit()
+	}()
+	s.call(req{kind: kSpawn, wake: start, n: 1})
 }
 
 // Client starts an additional client goroutine of the harness.
@@ -613,7 +629,7 @@ func (s *Sim) loop() {
 		s.note(g, r.kind)
 		switch r.kind {
 		case kSpawn:
-			c := &gor{id: s.nextID, wake: r.wake, state: gReady}
+			c := &gor{id: s.nextID, wake: r.wake, state: gReady, daemon: r.n == 1}
 			s.nextID++
 			if s.cfg.Policy == PolPCT {
 				c.prio = 1 + s.ch.Draw("pct-prio", 999)
@@ -797,7 +813,14 @@ func (s *Sim) loop() {
 			return
 		}
 		s.running = nil
-		if len(s.gs) == 0 {
+		alive := 0
+		for _, x := range s.gs {
+			if !x.daemon {
+				alive++
+			}
+		}
+		if alive == 0 && g == nil {
+			// only background helpers (tickers) are left: the run is over; they stay parked
 			s.finish(OutOK, nil, 0)
 			return
 		}
